@@ -12,7 +12,7 @@ pub struct C02;
 impl Prop for C02 {
     fn id(&self) -> &'static str { "C02" }
     fn rule(&self) -> String {
-        "passwords {empty, ASCII, UTF-8 multi-byte, 64 / 65 / 200 bytes, trailing NUL, single 0x80 byte} x plaintext lengths {0, 1, 30, 65536, 65537} x read schedules {full, oneshort, random, halves} and write schedules: \
+        "passwords {empty, ASCII, UTF-8 multi-byte, 64 / 65 / 200 bytes, trailing NUL, single 0x80 byte, trailing space / newline / tab, 87-byte passphrase} x plaintext lengths {0, 1, 30, 65536, 65537} x read schedules {full, oneshort, random, halves} and write schedules: \
          Rust pass_encrypt output == model output, decrypts on both sides to the plaintext; wrong passwords (one-bit neighbour, appended byte, dropped byte, unrelated) must give an error with zero bytes written on both sides; \
          the two HMAC key-normalisation pairs (NUL padding, long password vs its SHA-256) are run every time and reported as the known finding. non-trivial = distinct (kind, password kind, length, schedule)".into()
     }
